@@ -19,7 +19,7 @@ keyed by the protected construct, so a deleted guard is a violated instance (exi
      through entry preconditions)
  G6  member type conversions are range-checked (PBF cast, o5m index, XML / OPL allowed set)
  G7  expat boundary: registered callbacks are noexcept and nothing can escape their bodies; the catch-all stores the
-     exception and stops the parser; an entity-declaration handler is registered and always throws; the XML_Parse error
+     exception and stops the parser; the handler is not run again once an exception is stored (tested before the try); an entity-declaration handler is registered and always throws; the XML_Parse error
      branch rethrows the stored exception before constructing its own
  G8  every throw in the reader / builder / osm / memory code throws a type derived from std::exception
  G9  next_utf8_codepoint: the length test precedes every advance-and-read, each case reads exactly its length
@@ -1166,6 +1166,60 @@ def g7_expat(fb, R, esc):
                 t = sorted(e)[0]
                 msgs.append('%s can escape the body of noexcept %s (std::terminate): %s' % (t, h.q, esc.chain(e[t], t)))
         R.check(not msgs, rule, '%s#registered-with:%s' % (g.q, setter), g.site, '; '.join(msgs))
+    # poisoned parser: once an exception has been stored the handlers must not run again (expat keeps calling callbacks after
+    # XML_StopParser, e.g. the end-element callback of an empty-element tag): on every path to a call inside the try block of the
+    # containing catch-all the member the handler stores into has been tested and found empty
+    for (setter, g) in callbacks:
+        key = '%s#handler-not-run-after-stored-exception' % g.q
+        verdict = None
+        why = 'no function with a catch (...) on the call chain of this callback'
+        for h in _noexcept_chain(fb, g):
+            for (t, hd) in catch_alls(h):
+                store_fields = set()
+                for n in h.all_nodes():
+                    if n.get('k') == 'call' and h.in_range(n['id'], hd['b'], hd['e']):
+                        if _is_store(h, n):
+                            store_fields.add(h.sn(n['recv'])['name'])
+                        for g2 in fb.by_usr.get(n.get('u'), [])[:1]:
+                            if g2.has_cfg and (g2.cls or '').startswith(XMLP):
+                                store_fields |= {g2.sn(m['recv'])['name'] for m in g2.all_nodes() if m.get('k') == 'call' and _is_store(g2, m)}
+                if not store_fields:
+                    verdict, why = False, 'the catch-all of %s does not store the exception in a member' % h.q
+                    continue
+                targets = [n['id'] for n in h.all_nodes() if n.get('k') == 'call' and h.in_range(n['id'], t['b'], t['e'])
+                           and n.get('q') not in ('std::forward', 'std::move') and elem_of(h, n['id']) is not None]
+                if not targets:
+                    continue
+
+                def is_m(f, x, store_fields=store_fields):
+                    n = f.sn(x)
+                    if n is None:
+                        return False
+                    if n.get('k') == 'call' and _method_name(n.get('q', '')) in ('(conv)', 'operator bool') and n.get('recv') is not None:
+                        n = f.sn(n['recv'])
+                    return n is not None and n.get('k') == 'member' and n.get('field') and n['name'] in store_fields
+                pe = classify_edges(h, truthy(is_m, want_true=False))
+                pe |= classify_edges(h, equals(is_m, lambda f, x: f.const_value(x) == 0 or (f.sn(x) or {}).get('null'), want_equal=True))
+                w = reaches_unchecked(h, ['entry'], targets, pe)
+                if w is not None and h is not g:
+                    # the test may sit in the caller on the chain (wrap() testing before it calls member_wrap())
+                    ok_callers = True
+                    sites = [(c2f, c2) for c2f in _noexcept_chain(fb, g) for c2 in c2f.all_nodes() if c2.get('k') == 'call' and c2.get('u') == h.usr]
+                    for (c2f, c2) in sites:
+                        pe2 = classify_edges(c2f, truthy(is_m, want_true=False))
+                        if not pe2 or reaches_unchecked(c2f, ['entry'], [c2['id']], pe2) is not None:
+                            ok_callers = False
+                    if sites and ok_callers:
+                        w = None
+                if w is None:
+                    if verdict is None:
+                        verdict = True
+                else:
+                    verdict = False
+                    why = ('%s runs the handler although an exception may already be stored in %s (no test of it on the path %s): expat calls further '
+                           'callbacks after XML_StopParser (end of an empty-element tag), which then run on a half-updated state machine'
+                           % (h.q, '/'.join(sorted(store_fields)), describe(h, w)))
+        R.check(verdict is True, 'G7-expat-handler-not-run-after-error', key, g.site, why)
     # the catch-all that contains the exceptions stores it and stops the parser
     n_catch = 0
     for h in chain_fns.values():
@@ -2391,6 +2445,7 @@ def run(ctx):
     R.expect('G6-member-type-range-checked', 4)         # PBF, o5m, XML, OPL
     R.expect('G7-expat-callbacks-contained', 4)
     R.expect('G7-expat-exception-stored-and-parser-stopped', 1)
+    R.expect('G7-expat-handler-not-run-after-error', 4)
     R.expect('G7-expat-entity-declarations-rejected', 1)
     R.expect('G7-expat-parse-error-rethrows-stored-first', 1)
     R.expect('G8-throws-std-exception', 100)
@@ -2428,7 +2483,7 @@ def _selftest(fb, R):
 SELFTESTS = [(r, 'c03_guards.cpp', _selftest) for r in (
     'G1-stringtable-access-is-at', 'G1-out_of_range-mapped', 'G2-stringtable-entry-length', 'G3-builder-string-length-checked',
     'G4-blob-sizes-bounded', 'G5-o5m-section-end-checked', 'G5-o5m-reference-table-bounds', 'G5-o5m-bytes-available', 'G5-o5m-cursor-deref-end-checked',
-    'G6-member-type-range-checked', 'G7-expat-callbacks-contained', 'G7-expat-exception-stored-and-parser-stopped',
+    'G6-member-type-range-checked', 'G7-expat-callbacks-contained', 'G7-expat-exception-stored-and-parser-stopped', 'G7-expat-handler-not-run-after-error',
     'G7-expat-entity-declarations-rejected', 'G7-expat-parse-error-rethrows-stored-first', 'G8-throws-std-exception',
     'G9-utf8-length-test-before-continuation', 'G9-utf8-case-reads-its-length', 'NUL-tag-strings-have-no-interior-nul',
     'A1-who-may-abort', 'A1-abort-unreachable-premise')]
